@@ -1,23 +1,34 @@
 """C15 -- restricting the stages makes an evaluation a side-effect-free dry run."""
-from contracts import api, api_stages
+from contracts import api, api_stages, store_local, store_memory, lru
 from ._api_common import TRUSTED_API, owner, _AnyApiClause
 
 ID = "C15"
 LEVEL = "proof"
-EXPLANATION = '_parse_stages is proved equal to its specification for every list (None -> all five; otherwise the prefix of the stage order of length min(len, 5) iff each element names its phase as a string in any case or as the enum member; otherwise a DDSException, never a KeyError). On every path of _eval_new_ctx: EVAL not in stages => no user_call / store_blob / sync_paths event, result None, store view unchanged; PATH_COMMIT not in stages => no sync_paths event and the path map unchanged.'
+EXPLANATION = '_parse_stages is proved equal to its specification for every list (None -> all five; otherwise the prefix of the stage order of length min(len, 5) iff each element names its phase as a string in any case or as the enum member; otherwise a DDSException, never a KeyError). On every path of _eval_new_ctx: EVAL not in stages => no user_call / store_blob / sync_paths event, result None, store view unchanged; PATH_COMMIT not in stages => no sync_paths event and the path map unchanged. The store operations a restricted evaluation still performs (has_blob, fetch_paths; fetch_blob on a hit) are proved read-only on the memory, local and cache-wrapped stores (file-system frame: nothing on disk changes).'
 TRUSTED = TRUSTED_API
 ASSUMPTIONS = ["A-USER", "A-DET", "A-LOG", "A-FLOAT", "A-ALIAS"]
 LEVEL_TEXT = 'Deductive proof of the stage decoding (all lists, unbounded length, all element kinds) and of the effect-trace postconditions of the real _eval_new_ctx for every stage prefix.'
 DESIGN_REF = "5 (C15)"
-REPLAY = _AnyApiClause()
+class _Replay(_AnyApiClause):
+    def get(self, key, default=None):
+        if key.startswith(("LocalFileStore.", "MemoryStore.", "LRUCacheStore.")):
+            return "h_store.reads_leave_no_trace"
+        return super().get(key, default)
+
+
+REPLAY = _Replay()
 owns = owner("C15")
 
 
 def specs():
-    return [c() for c in api.SPECS] + [c() for c in api_stages.SPECS]
+    # what a stage-restricted evaluation calls on the store are its read operations: their read-only frames carry the
+    # "side-effect free" part of the property down to each concrete store
+    reads = [store_local.Local_has_blob, store_local.Local_fetch_blob, store_local.Local_fetch_paths, store_memory.MemoryStore_has_blob, store_memory.MemoryStore_fetch_blob,
+             store_memory.MemoryStore_fetch_paths, lru.LRUCacheStore_has_blob, lru.LRUCacheStore_fetch_blob]
+    return [c() for c in api.SPECS] + [c() for c in api_stages.SPECS] + [c() for c in reads]
 
 
 def bounded(tier, seed, pr):
     from pyvc.boundedrun import run_bounded
 
-    return [run_bounded(pr, "b_api.py", "native_scenarios_dryrun", args={"groups": ['dryrun']})]
+    return [run_bounded(pr, "b_api.py", "native_scenarios_dryrun", args={"groups": ['dryrun']}), run_bounded(pr, "b_reads.py", "reads_leave_no_trace")]
